@@ -1095,6 +1095,9 @@ def rule_build_sem(ctx: RuleContext, ts: TS, rid: str) -> None:
             continue
         if nlen and not blocks:
             problem = problem or f'{nlen} tokens: no block'
+        if any(b.f['tokens'] is toks for b in blocks):
+            problem = problem or (f'{nlen} tokens: a block adopts the caller\'s list object as its token list instead of a copy: later edits of the '
+                                  f'store change the caller\'s list and the caller\'s edits change the store behind its bookkeeping')
         for k, b in enumerate(blocks):
             if b.f.get('index') != 5 + k or b.f.get('store') is not store:
                 problem = problem or f'{nlen} tokens: block {k} has index {b.f.get("index")!r} (expected {5 + k}) or a foreign store'
